@@ -237,6 +237,15 @@ func (r *Run) Finish() {
 					}
 					parts[part] = cov
 					pc["additional_parts"] = parts
+					if lvl := os.Getenv("VERIF_MERGE_LEVEL"); lvl != "" {
+						// the second part lifts the check to another evidence level and brings that level's own keys
+						prev["level"] = lvl
+						for _, k := range []string{"states", "transitions", "traces_validated_against_impl"} {
+							if v, ok := cov[k]; ok {
+								pc[k] = v
+							}
+						}
+					}
 					prev["violations"] = int(num(prev["violations"])) + newV
 					prev["wall_s"] = num(prev["wall_s"]) + time.Since(r.start).Seconds()
 					out = prev
